@@ -297,7 +297,8 @@ func init() {
 		triple.NewLiteralObject(mustLit(literal.Float64, 1.5)),
 		triple.NewPredicateObject(mustImm("p")), triple.NewPredicateObject(mustTmp("p", qt0)), triple.NewPredicateObject(mustTmp("q", qt1)))
 	// the ends of int64: sums that leave the range
-	for _, v := range []int64{-2, -1, 10, 11, 9223372036854775807, 9223372036854775806, -9223372036854775808, 4611686018427387904} {
+	// (and running sums that leave it and come back: 9223372036854775802 + 10 - 10)
+	for _, v := range []int64{-2, -1, 10, 11, 9223372036854775807, 9223372036854775806, -9223372036854775808, 4611686018427387904, 9223372036854775802, -10} {
 		qNums = append(qNums, triple.NewLiteralObject(mustLit(literal.Int64, v)))
 	}
 	for _, v := range []float64{0.25, -2, 2.5, 1.25, 1.75, -2.5} {
@@ -1122,6 +1123,22 @@ func cmdQuery(args []string) error {
 				}
 			}
 		}
+		// sums whose running value leaves int64 and comes back (9223372036854775802 + 10 - 10), whose total does not fit
+		// (2^62 + 2^62), and ordinary ones: the outcome must not depend on the order in which the rows arrive
+		sumScenario := strings.Contains(*mode, "group") && !sepScenario && r.chance(1, 5)
+		if sumScenario {
+			for _, x := range []struct {
+				s string
+				v int64
+			}{{"s1", 9223372036854775802}, {"s1", 10}, {"s1", -10}, {"s2", 4611686018427387904}, {"s2", 4611686018427387903},
+				{"s3", -9223372036854775808}, {"s3", -1}, {"s3", 1}, {"s4", 7}, {"s4", -9}, {"s5", 9223372036854775807}, {"s5", 11}, {"s5", -11}, {"s5", -2}} {
+				t, _ := triple.New(mustNode("/u", x.s), mustImm("w"), triple.NewLiteralObject(mustLit(literal.Int64, x.v)))
+				if !seen[t.String()] {
+					seen[t.String()] = true
+					g.define(t)
+				}
+			}
+		}
 		ng := 1 + r.intn(3)
 		overlap := false
 		used := map[string]int{}
@@ -1153,6 +1170,12 @@ func cmdQuery(args []string) error {
 					strings.Join(names[:nfrom], ", "), []string{"?sid, ?oid", "?oid, ?sid"}[k])
 				q.intent = ""
 				q.hist["string-keys-with-separator"]++
+			}
+			if sumScenario && k < 3 {
+				text = fmt.Sprintf("select ?s, sum(?o) as ?t, count(?o) as ?n from %s where { ?s \"w\"@[] ?o } group by ?s%s;",
+					strings.Join(names[:ng], ", "), []string{"", " order by ?s", " having ?n > \"2\"^^type:int64"}[k])
+				q.intent = ""
+				q.hist["sums-at-the-ends-of-int64"]++
 			}
 			// overlap only matters among the graphs actually listed
 			ov := false
